@@ -41,13 +41,15 @@ def hasParams : List Ty → Bool
   | t :: ts => hasParam t || hasParams ts
 end
 
-/-- A declaration that takes type arguments: a generic record, or a forwarding newtype with
-    parameters whose field type mentions one. -/
+/-- A declaration that takes type arguments: a generic record, a forwarding newtype with
+    parameters whose field type mentions one, or a generic enum that maps to a union (no such enum
+    is in `FitWfW`, `declOkWith`; they are admitted by `Lemmas/DeriveWiderU.lean`). -/
 def isGenW (d : Decl) : Bool :=
   decide (d.nparams ≠ 0) &&
     (match d.body with
       | .record _ => true
       | .newtype fd => isDirect fd .newtypeStruct && hasParam fd.ty
+      | .union _ => true
       | _ => false)
 
 /-- Number of type parameters in scope in the fields of the declaration. -/
@@ -1340,6 +1342,7 @@ theorem isGenW_of_G {id : Nat} {d : Decl} (hd : P[id]? = some d) : isGenW d = is
   | newtype fd =>
     simp only [declOkG, hb, Bool.and_eq_true, plainFieldOkG] at hdok
     simp [hasParam_of_tyOkG _ hdok.1.2.2]
+  | union vs => simp [declOkG, hb] at hdok
   | _ => rfl
 
 set_option linter.unusedSectionVars false in
